@@ -18,7 +18,7 @@ CHECKS = {
         note="Trusted: O-WCAG, O-CSS. pair.text.rgb is taken as the composited original (its correctness is C13/C07)."),
     "C03": dict(cat="exploration", ref="DESIGN.md §5 C03",
         technique="property-based testing with an independent exhaustive witness scan of the OKLCH lightness line (O-OKLAB, O-DE00, O-WCAG)",
-        text="For each generated pair just below a threshold the harness scans the text's own lightness line on a 0.0005 grid with its own OKLCH/CIEDE2000/WCAG implementations; where a witness (dE<=1.5, minimum+0.05) exists, make_readable must succeed in all modes within dE 2.0.",
+        text="For each generated pair just below a threshold the harness scans the text's own lightness line on a 0.0001 grid (0.00002 in the thorough tier) with its own OKLCH/CIEDE2000/WCAG implementations; where a witness (dE<=1.5, minimum+0.05) exists, make_readable must succeed in all modes within dE 2.0.",
         note="Trusted: the three oracles; a witness lying strictly between grid points is missed (missed obligation, never a false alarm)."),
     "C04": dict(cat="exploration", ref="DESIGN.md §5 C04",
         technique="property-based testing: strict-mode dE cap, direct calls of the search routines with arbitrary tolerances/schedules, and step-chain recording by attribute replacement in the harness process",
